@@ -868,3 +868,247 @@ Section WorldAccept.
   Qed.
 
 End WorldAccept.
+
+(* ================================================================================================
+   hybrid / implicit front-channel responses (response types "code id_token", "code token",
+   "code id_token token", "id_token token", "id_token"): every member of an accepted response belongs
+   to the flow its state names (C09).  The hash rules are those of Model/IdToken.v (C08).
+   ================================================================================================ *)
+Lemma key_not_expires_code : PS "code" <> PS "__expires_at". Proof. intro E; vm_compute in E; discriminate. Qed.
+Lemma key_not_expires_atok : PS "access_token" <> PS "__expires_at". Proof. intro E; vm_compute in E; discriminate. Qed.
+Lemma key_not_expires_idt : PS "id_token" <> PS "__expires_at". Proof. intro E; vm_compute in E; discriminate. Qed.
+
+Section Hybrid.
+  Variable lhash : pystr -> pystr -> pystr.
+
+  (* an id_token parameter that reaches AuthorizationResponse.verify is verified (or the response refused) *)
+  Lemma authz_response_verify_idt kw d idt now d1 s :
+    authz_response_verify lhash kw d idt now = Ok d1 ->
+    assoc (PS "id_token") d = Some (VStr s) ->
+    exists v, assoc (verified_name (PS "id_token")) d1 = Some v.
+  Proof.
+    unfold authz_response_verify. intros H Hs.
+    apply bind_ok in H as ([] & _ & H). apply bind_ok in H as ([] & _ & H).
+    apply bind_ok in H as ([] & _ & H). apply bind_ok in H as ([] & _ & H).
+    rewrite (strip_verified_keep d (PS "id_token") eq_refl), Hs in H.
+    destruct idt as [t|]; try discriminate.
+    apply bind_ok in H as (code & _ & H). apply bind_ok in H as (atok & _ & H).
+    apply bind_ok in H as (vd & _ & H). inversion H; subst d1.
+    rewrite assoc_aset_same. eauto.
+  Qed.
+
+  Lemma opt_param_some d k x o : opt_param d k = Ok o -> assoc k d = Some (VStr x) -> o = Some x.
+  Proof. unfold opt_param. intros H E. rewrite E in H. inversion H; reflexivity. Qed.
+
+  (* what an accepted authorization response establishes about its members: an id_token parameter is
+     verified; the verified claims are the coerced payload of the delivered token; for a signed token the
+     code / access_token that are STORED are the ones the token's c_hash / at_hash cover (both, independently) *)
+  Theorem step_authz_members c r now c' stored :
+    step_authz lhash c r now = (c', Ok stored) -> has_key (PS "error") stored = false ->
+    exists d0, from_dict authz_resp_params (r_params r) [] = Ok d0 /\
+      assoc (PS "state") stored = assoc (PS "state") d0 /\
+      assoc (PS "code") stored = assoc (PS "code") d0 /\
+      assoc (PS "access_token") stored = assoc (PS "access_token") d0 /\
+      assoc (PS "id_token") stored = assoc (PS "id_token") d0 /\
+      (forall s, assoc (PS "id_token") stored = Some (VStr s) ->
+         exists v, assoc (verified_name (PS "id_token")) stored = Some v) /\
+      (forall v, assoc (verified_name (PS "id_token")) stored = Some v ->
+         exists t vd, r_idt r = Some t /\ v = VDict vd /\
+           from_dict idtoken_params (t_claims t) [] = Ok vd /\
+           (t_alg t <> PS "none" ->
+              (forall x, assoc (PS "code") stored = Some (VStr x) ->
+                 assoc (PS "c_hash") vd = Some (VStr (lhash (hash_bits (t_alg t)) x))) /\
+              (forall x, assoc (PS "access_token") stored = Some (VStr x) ->
+                 assoc (PS "at_hash") vd = Some (VStr (lhash (hash_bits (t_alg t)) x))))).
+  Proof.
+    unfold step_authz. intros H Hnoerr.
+    destruct (parse_authz lhash c r now) as [d| |] eqn:Hp; try (pair_absurd H).
+    destruct (has_key (PS "error") d) eqn:Eerr.
+    { inversion H; subst. rewrite resp_to_dict_has_key in Hnoerr. congruence. }
+    destruct (state_param d) as [st| |] eqn:Est; try (pair_absurd H).
+    destruct (db_get (cl_db c) st) as [rec| |] eqn:Erec; try (pair_absurd H).
+    destruct (negb _) eqn:Eiss; [pair_absurd H|].
+    destruct (with_expires_at (resp_to_dict authz_resp_params d) now) as [st0| |] eqn:Ew; try (pair_absurd H).
+    inversion H; subst c' st0. clear H.
+    destruct (parse_authz_inv lhash _ _ _ _ Hp Eerr) as (d0 & Hf & Hv & _).
+    destruct (authz_response_verify_inv lhash _ _ _ _ _ Hv) as (_ & _ & Hkeep & Hver).
+    assert (Sstate : assoc (PS "state") stored = assoc (PS "state") d0).
+    { rewrite <- (Hkeep (PS "state") eq_refl). eapply stored_assoc; eauto using key_not_expires_state. }
+    assert (Scode : assoc (PS "code") stored = assoc (PS "code") d0).
+    { rewrite <- (Hkeep (PS "code") eq_refl). eapply stored_assoc; eauto using key_not_expires_code. }
+    assert (Sat : assoc (PS "access_token") stored = assoc (PS "access_token") d0).
+    { rewrite <- (Hkeep (PS "access_token") eq_refl). eapply stored_assoc; eauto using key_not_expires_atok. }
+    assert (Sidt : assoc (PS "id_token") stored = assoc (PS "id_token") d0).
+    { rewrite <- (Hkeep (PS "id_token") eq_refl). eapply stored_assoc; eauto using key_not_expires_idt. }
+    assert (Sver : assoc (verified_name (PS "id_token")) stored = assoc (verified_name (PS "id_token")) d)
+      by (eapply stored_assoc; eauto using key_not_expires_ver).
+    exists d0. split; [exact Hf|]. split; [exact Sstate|]. split; [exact Scode|]. split; [exact Sat|].
+    split; [exact Sidt|]. split.
+    - intros s Hs. rewrite Sidt in Hs. rewrite Sver.
+      eapply authz_response_verify_idt; eauto.
+    - intros v Hv'. rewrite Sver in Hv'.
+      destruct (Hver v Hv') as (t & code & atok & vd & Ht & -> & Hcode & Hatok & Hvd).
+      exists t, vd. split; [exact Ht|]. split; [reflexivity|].
+      apply verify_id_token_stages in Hvd as (signed & Hpol & _ & Hfd & _ & _ & Hh & _).
+      split; [exact Hfd|]. intro Hne.
+      destruct signed.
+      + apply hash_checks_inv in Hh as [Hc Ha]. split; intros x Hx.
+        * apply Hc. rewrite Scode in Hx. eapply opt_param_some; eauto.
+          rewrite strip_verified_keep by reflexivity. exact Hx.
+        * apply Ha. rewrite Sat in Hx. eapply opt_param_some; eauto.
+          rewrite strip_verified_keep by reflexivity. exact Hx.
+      + apply alg_policy_inv in Hpol as [Hp0 _]. destruct (Hp0 eq_refl) as [E _]. contradiction.
+  Qed.
+
+  (* ---- responses recombined member by member ---- *)
+  Lemma hybrid_params_nodup h : NoDup (List.map fst (hybrid_params h)).
+  Proof.
+    destruct h as [s [g|] [i|] [a|]]; cbn; repeat constructor; cbn; intuition discriminate.
+  Qed.
+
+  Lemma hybrid_assoc_state h : assoc (PS "state") (hybrid_params h) = Some (VStr (fl_state (hy_state h))).
+  Proof. reflexivity. Qed.
+  Lemma hybrid_assoc_code h g : hy_code h = Some g -> assoc (PS "code") (hybrid_params h) = Some (VStr (fl_code g)).
+  Proof. destruct h as [s [g'|] [i|] [a|]]; cbn [hy_code]; intro E; inversion E; subst; reflexivity. Qed.
+  Lemma hybrid_assoc_atok h g :
+    hy_atok h = Some g -> assoc (PS "access_token") (hybrid_params h) = Some (VStr (fl_atok g)).
+  Proof. destruct h as [s [g'|] [i|] [a|]]; cbn [hy_atok]; intro E; inversion E; subst; reflexivity. Qed.
+  Lemma hybrid_assoc_idt h g : hy_idt h = Some g -> assoc (PS "id_token") (hybrid_params h) = Some (VStr (fl_jwt g)).
+  Proof. destruct h as [s [g'|] [i|] [a|]]; cbn [hy_idt]; intro E; inversion E; subst; reflexivity. Qed.
+
+  Lemma hybrid_d0 h d0 :
+    from_dict authz_resp_params (hybrid_params h) [] = Ok d0 ->
+    (forall x, assoc (PS "state") d0 = Some x -> x = VStr (fl_state (hy_state h))) /\
+    (forall g, hy_code h = Some g -> fl_code g <> [] -> assoc (PS "code") d0 = Some (VStr (fl_code g))) /\
+    (forall g, hy_atok h = Some g -> fl_atok g <> [] -> assoc (PS "access_token") d0 = Some (VStr (fl_atok g))) /\
+    (forall g, hy_idt h = Some g -> fl_jwt g <> [] -> assoc (PS "id_token") d0 = Some (VStr (fl_jwt g))).
+  Proof.
+    intro H. pose proof (hybrid_params_nodup h) as Hnd.
+    split; [|split; [|split]].
+    - intros x Hx. pose proof (from_dict_assoc _ _ _ _ (PS "state") H Hnd) as P.
+      rewrite hybrid_assoc_state in P. destruct (fl_state (hy_state h)) as [|c0 s0]; cbn -[PS assoc] in P.
+      + rewrite Hx in P. discriminate.
+      + rewrite Hx in P. inversion P; reflexivity.
+    - intros g Hg Hne. pose proof (from_dict_assoc _ _ _ _ (PS "code") H Hnd) as P.
+      rewrite (hybrid_assoc_code _ _ Hg) in P. destruct (fl_code g) as [|c0 s0]; [congruence|].
+      cbn -[PS assoc] in P. exact P.
+    - intros g Hg Hne. pose proof (from_dict_assoc _ _ _ _ (PS "access_token") H Hnd) as P.
+      rewrite (hybrid_assoc_atok _ _ Hg) in P. destruct (fl_atok g) as [|c0 s0]; [congruence|].
+      cbn -[PS assoc] in P. exact P.
+    - intros g Hg Hne. pose proof (from_dict_assoc _ _ _ _ (PS "id_token") H Hnd) as P.
+      rewrite (hybrid_assoc_idt _ _ Hg) in P. destruct (fl_jwt g) as [|c0 s0]; [congruence|].
+      cbn -[PS assoc] in P. exact P.
+  Qed.
+
+  (* a string claim of the verified ID Token is stated, as that string, by the delivered token *)
+  Lemma verified_claim_origin t vd k s ps :
+    from_dict idtoken_params (t_claims t) [] = Ok vd -> assoc k vd = Some (VStr s) ->
+    find_spec k idtoken_params = Some ps -> ps_type ps = CStr -> In (k, VStr s) (t_claims t).
+  Proof.
+    intros H Hd Hf Ht. destruct (from_dict_origin _ _ _ _ _ _ H Hd) as [Ha|(v0 & Hin & Hm)]; [discriminate|].
+    rewrite Hf, Ht in Hm. apply coerce_cstr_vstr in Hm. subst v0. exact Hin.
+  Qed.
+
+  (* THE BINDING OF EVERY MEMBER.  Universe fs of flows whose artefacts are genuine and pairwise separate; a
+     response recombined from them member by member, delivered to a client where the flow named by the state
+     is pending with its own nonce.  If the response carries a signed ID Token and is accepted, then the ID
+     Token, the code and the access token ALL are the artefacts of the flow the state names. *)
+  Theorem hybrid_members_own fs c h now c' stored :
+    separate_flows lhash fs -> (forall f, In f fs -> genuine_flow lhash f) -> hybrid_within fs h ->
+    (forall rec, db_get (cl_db c) (fl_state (hy_state h)) = Ok rec ->
+                 assoc (PS "nonce") rec = Some (VStr (fl_nonce (hy_state h)))) ->
+    step_authz lhash c (hybrid_response h) now = (c', Ok stored) -> has_key (PS "error") stored = false ->
+    forall fi, hy_idt h = Some fi -> t_alg (fl_idt fi) <> PS "none" ->
+      fi = hy_state h /\
+      (forall g, hy_code h = Some g -> g = hy_state h /\ assoc (PS "code") stored = Some (VStr (fl_code g))) /\
+      (forall g, hy_atok h = Some g -> g = hy_state h /\ assoc (PS "access_token") stored = Some (VStr (fl_atok g))) /\
+      c' = mkClient (cl_cfg c) (db_update (cl_db c) (fl_state (hy_state h)) stored) (cl_map c).
+  Proof.
+    intros Hsep Hgen (Hin_s & Hin_c & Hin_i & Hin_a) Hpending H Hnoerr fi Hfi Hsigned.
+    destruct (step_authz_accept lhash _ _ _ _ _ H Hnoerr) as (st & rec & Hst & Hrec & _ & _ & _ & Hc' & Hver).
+    destruct (step_authz_members _ _ _ _ _ H Hnoerr) as (d0 & Hf & Sstate & Scode & Sat & Sidt & Hpresent & Hmem).
+    cbn [hybrid_response r_params] in Hf.
+    destruct (hybrid_d0 _ _ Hf) as (Dstate & Dcode & Dat & Didt).
+    (* the state of the response is the state of the flow it names *)
+    rewrite Sstate in Hst. apply Dstate in Hst. inversion Hst; subst st. clear Hst.
+    pose proof (Hin_i _ Hfi) as Hfi_in.
+    destruct (Hgen _ Hfi_in) as (Gn & Gc & Ga & _ & _ & _ & Gj).
+    destruct (Hgen _ Hin_s) as (_ & _ & _ & Gsn & _).
+    (* the ID Token parameter is there, hence verified *)
+    assert (Hv : exists v, assoc (verified_name (PS "id_token")) stored = Some v).
+    { apply (Hpresent (fl_jwt fi)). rewrite Sidt. apply Didt; auto. }
+    destruct Hv as (v & Hv).
+    destruct (Hver v Hv) as (t & code & atok & vd & Ht & Ev & _ & Hnonce).
+    destruct (Hmem v Hv) as (t' & vd' & Ht' & Ev' & Hfd & Hhash).
+    rewrite Ht in Ht'. inversion Ht'; subst t'. rewrite Ev in Ev'. inversion Ev'; subst vd'. clear Ht' Ev'.
+    cbn [hybrid_response r_idt] in Ht. rewrite Hfi in Ht. inversion Ht; subst t. clear Ht.
+    (* nonce: the verified token states the nonce of the pending flow; it only states its own *)
+    assert (Efi : fi = hy_state h).
+    { specialize (Hnonce _ (Hpending _ Hrec) Gsn).
+      pose proof (verified_claim_origin _ _ _ _ _ Hfd Hnonce eq_refl eq_refl) as Hin.
+      apply Gn in Hin. inversion Hin as [En].
+      apply (Hsep _ _ Hin_s Hfi_in) in En. congruence. }
+    split; [exact Efi|].
+    destruct (Hhash Hsigned) as [Hc Ha].
+    split; [|split; [|exact Hc']]; intros g Hg.
+    - pose proof (Hin_c _ Hg) as Hg_in. destruct (Hgen _ Hg_in) as (_ & _ & _ & _ & Gcode & _).
+      assert (Hs : assoc (PS "code") stored = Some (VStr (fl_code g))) by (rewrite Scode; apply Dcode; auto).
+      split; [|exact Hs].
+      apply Hc in Hs. pose proof (verified_claim_origin _ _ _ _ _ Hfd Hs eq_refl eq_refl) as Hin.
+      apply Gc in Hin. inversion Hin as [Eh].
+      destruct (Hsep _ _ Hg_in Hfi_in) as (_ & Sc & _). rewrite (Sc _ Eh). exact Efi.
+    - pose proof (Hin_a _ Hg) as Hg_in. destruct (Hgen _ Hg_in) as (_ & _ & _ & _ & _ & Gat & _).
+      assert (Hs : assoc (PS "access_token") stored = Some (VStr (fl_atok g))) by (rewrite Sat; apply Dat; auto).
+      split; [|exact Hs].
+      apply Ha in Hs. pose proof (verified_claim_origin _ _ _ _ _ Hfd Hs eq_refl eq_refl) as Hin.
+      apply Ga in Hin. inversion Hin as [Eh].
+      destruct (Hsep _ _ Hg_in Hfi_in) as (_ & _ & Sa). rewrite (Sa _ Eh). exact Efi.
+  Qed.
+
+  (* the same for the client an RPHandler delivers the response to *)
+  Theorem world_hybrid_members_own fs w i h now w' stored :
+    separate_flows lhash fs -> (forall f, In f fs -> genuine_flow lhash f) -> hybrid_within fs h ->
+    (forall c rec, assoc i w = Some c -> db_get (cl_db c) (fl_state (hy_state h)) = Ok rec ->
+                   assoc (PS "nonce") rec = Some (VStr (fl_nonce (hy_state h)))) ->
+    step lhash w (OAuthz i (hybrid_response h) now) = (w', Ok stored) -> has_key (PS "error") stored = false ->
+    forall fi, hy_idt h = Some fi -> t_alg (fl_idt fi) <> PS "none" ->
+      hybrid_own h = true /\
+      (forall g, hy_code h = Some g -> assoc (PS "code") stored = Some (VStr (fl_code (hy_state h)))) /\
+      (forall g, hy_atok h = Some g -> assoc (PS "access_token") stored = Some (VStr (fl_atok (hy_state h)))) /\
+      exists c, assoc i w = Some c /\
+        w' = w_set w i (mkClient (cl_cfg c) (db_update (cl_db c) (fl_state (hy_state h)) stored) (cl_map c)).
+  Proof.
+    intros Hsep Hgen Hwithin Hpending H Hnoerr fi Hfi Hsigned. cbn [step] in H.
+    apply on_client_inv in H as [(_ & _ & Hout)|(c & c' & Hi & Hf & Hw)]; [discriminate|].
+    destruct (hybrid_members_own fs c h now c' stored Hsep Hgen Hwithin (fun rec => Hpending c rec Hi) Hf Hnoerr
+                fi Hfi Hsigned) as (Efi & Hc & Ha & Hc').
+    split; [|split; [|split]].
+    - unfold hybrid_own, member_own, same_flow. rewrite Hfi, Efi, str_eqb_refl.
+      destruct (hy_code h) as [g|] eqn:Eg; [destruct (Hc g eq_refl) as [-> _]; rewrite str_eqb_refl|];
+        (destruct (hy_atok h) as [g'|] eqn:Eg'; [destruct (Ha g' eq_refl) as [-> _]; rewrite str_eqb_refl|]); reflexivity.
+    - intros g Hg. destruct (Hc g Hg) as [<- Hs]. exact Hs.
+    - intros g Hg. destruct (Ha g Hg) as [<- Hs]. exact Hs.
+    - exists c. split; [exact Hi|]. rewrite Hw, Hc'. reflexivity.
+  Qed.
+End Hybrid.
+
+(* ---- the hypotheses of hybrid_members_own are satisfiable: the two example flows ---- *)
+From Verif Require Import Model.RpExamples.
+Lemma ex_lhash_inj b x y : ex_lhash b x = ex_lhash b y -> x = y.
+Proof.
+  unfold ex_lhash. intro E. apply app_inv_head in E. apply app_inv_head in E. apply app_inv_head in E. exact E.
+Qed.
+Lemma ex_flows_separate_genuine :
+  separate_flows ex_lhash [ex_flow_a; ex_flow_b] /\ (forall f, In f [ex_flow_a; ex_flow_b] -> genuine_flow ex_lhash f).
+Proof.
+  split.
+  - intros f g Hf Hg.
+    destruct Hf as [<-|[<-|[]]]; destruct Hg as [<-|[<-|[]]];
+      (split; [|split]); try (intros; reflexivity);
+      try (intro E; vm_compute in E; discriminate);
+      intros b E; apply ex_lhash_inj in E; vm_compute in E; discriminate.
+  - intros f [<-|[<-|[]]]; unfold genuine_flow, claim_only;
+      (repeat split; try (intro E; vm_compute in E; discriminate));
+      intros v Hin; cbn in Hin;
+      repeat (destruct Hin as [Hin|Hin]; [inversion Hin; try reflexivity|]); try contradiction.
+Qed.
